@@ -603,7 +603,13 @@ func invertConst(q Q) Q {
 func evalAndOrConstants(q Q, children []Q) Q {
 	_, isAnd := q.(*And)
 
-	children = mapQueryList(children, evalConstants)
+	// evalConstants recurses itself; running it through Map would evaluate
+	// every subtree once per ancestor, which is exponential in the depth.
+	evaluated := make([]Q, len(children))
+	for i, ch := range children {
+		evaluated[i] = evalConstants(ch)
+	}
+	children = evaluated
 
 	newCH := children[:0]
 	for _, ch := range children {
